@@ -7,6 +7,8 @@ BASE_NOTE = ("Trusted: Coq 8.16.1 kernel + vm_compute; no axioms (Print Assumpti
              "extraction (ExtrOcamlBasic, ExtrOcamlString) cross-checked in-Coq; Python correspondence harness "
              "driving the real xdist classes; see DESIGN.md section 7.")
 TECH = 'Coq proof over a hand-written Gallina model + step-by-step model/implementation correspondence (differential) check; monitors on the real classes search for a failing input'
+CTL = ("Controller histories: the real DSession/scheduler/WorkerController fed with INJECTED worker messages (an abstract protocol-following worker that can also exit on a keyboard interrupt, "
+       "report an internal error, send something undecodable, or die at any point) are compared step by step with Model/CtlRun.v. ")
 SYS = ("Whole sessions are simulated from the REAL DSession/scheduler/WorkerController/WorkerInteractor/TestQueue classes and compared step by step with "
        "Model/System.v on online-generated schedules (crashes included); property monitors on the implementation give the concrete failing schedule. ")
 CHECKS = {
@@ -43,9 +45,9 @@ CHECKS = {
              "every worker starts a prefix of its own collection in order, exactly the whole collection when the session ends as finished, and the controller never raises.", design="5/C08", technique=TECH),
  "C09": dict(text=SYS + "Proved (all states/collections): diff None iff equal; initial disagreement => no command, one failed collect report per disagreeing worker; disagreeing replacement is never "
              "registered, gets no tests, is shut down; invariant over every reachable scheduler state: whoever is sent positions registered exactly the reference collection.", design="5/C09", technique=TECH),
- "C10": dict(text=SYS + "Proved for EVERY event sequence and scheduler state: replacements started <= max(0, budget); budget <= 0 disables replacement; one death spawns at most one replacement. "
+ "C10": dict(text=SYS + CTL + "Proved for EVERY event sequence and scheduler state: replacements started <= max(0, budget); budget <= 0 disables replacement; one death spawns at most one replacement. "
              "Known finding: no budget at all when neither -n nor the option is given.", design="5/C10", technique=TECH),
- "C11": dict(text=SYS + "Proved (every event sequence): the stop reason is sticky, triggers shutdown in the same iteration, is set exactly by the maxfail rule or a worker's stop request; late ready "
+ "C11": dict(text=SYS + CTL + "Proved (every event sequence): the stop reason is sticky, triggers shutdown in the same iteration, is set exactly by the maxfail rule or a worker's stop request; late ready "
              "workers are shut down, late collections ignored, flagged nodes get no work. The simulator runs the real pytest_runtestloop.", design="5/C11", technique=TECH),
  "C12": dict(text=SYS + "Proved (every event sequence): replacement ids are the consecutive next numbers of the group counter: distinct, never reused. Environment variables, fixtures and basetemp are "
              "checked in real -n runs with crashing tests (no model can contain the OS): partial for that half.", design="5/C12", technique=TECH + "; real pytest runs for env/fixtures/tmp dirs"),
@@ -57,9 +59,9 @@ CHECKS = {
              design="5/C14", technique=TECH),
  "C15": dict(text=SYS + "Proved (all states): mark_test_pending puts the index at the FRONT of the pool and adds exactly one index; monitors check hook-before-publication and dispatch-first on the implementation.",
              design="5/C15", technique=TECH),
- "C16": dict(text=SYS + "Proved for EVERY event sequence: at most one shutdown command per worker, never a second; every scheduler operation except the initial schedule sends no work to a flagged node "
+ "C16": dict(text=SYS + CTL + "Proved for EVERY event sequence: at most one shutdown command per worker, never a second; every scheduler operation except the initial schedule sends no work to a flagged node "
              "(the initial schedule under 'no node flagged yet'); steal requests name only booked tests; indices stay valid.", design="5/C16", technique=TECH),
- "C17": dict(text=SYS + "Deaths are injected at every lifecycle point; any controller exception other than the documented 'no active workers' exit, any stuck state and any budget violation is reported with its schedule. "
+ "C17": dict(text=SYS + CTL + "Deaths are injected at every lifecycle point; any controller exception other than the documented 'no active workers' exit, any stuck state and any budget violation is reported with its schedule. "
              "Proofs: SYSTEM level for --dist load (CrashCoupling.v, CrashTheorems.v), ARBITRARY crashes at any moment, replacements, any budget, every schedule: the book coupling invariant extended to dead and replacement workers; "
              "the only exception the controller can end with is the documented 'no active workers' one, which needs a worker that collected a different list; with agreeing collections the controller never raises. "
              "For every mode: the restart budget and crash-report theorems (C10, C03) hold for every event sequence incl. events of unknown nodes. Partial: 'never raises' for the other modes is searched by the monitors, not proved.", design="5/C17", technique=TECH),
